@@ -2,6 +2,7 @@ package checks
 
 import (
 	"fmt"
+	"reflect"
 	"strings"
 
 	"verifharness/fw"
@@ -26,30 +27,29 @@ func ix(i int) c05Step   { return c05Step{Idx: i, IsI: true} }
 func c05Walk(r Row, steps ...c05Step) any {
 	var cur any = map[string]any(r)
 	for _, s := range steps {
+		rv := reflect.ValueOf(cur)
 		if s.IsI {
-			arr, ok := cur.([]any)
-			if !ok {
+			if !rv.IsValid() || rv.Kind() != reflect.Slice {
 				return nil
 			}
 			i := s.Idx
 			if i < 0 {
-				i += len(arr)
+				i += rv.Len()
 			}
-			if i < 0 || i >= len(arr) {
+			if i < 0 || i >= rv.Len() {
 				return nil
 			}
-			cur = arr[i]
+			cur = rv.Index(i).Interface()
 			continue
 		}
-		m, ok := cur.(map[string]any)
-		if !ok {
+		if !rv.IsValid() || rv.Kind() != reflect.Map || rv.Type().Key().Kind() != reflect.String {
 			return nil
 		}
-		v, ok := m[s.Key]
-		if !ok {
+		v := rv.MapIndex(reflect.ValueOf(s.Key))
+		if !v.IsValid() {
 			return nil
 		}
-		cur = v
+		cur = v.Interface()
 	}
 	return cur
 }
@@ -104,9 +104,10 @@ func (w c05PathWhere) pass(r Row) bool {
 }
 
 func c05PathRows() []Row {
-	arrs := []any{[]any{3, 1, 2}, []any{5}, []any{}, c04Missing, 7} // a string is indexable (bytes): left out
-	dvals := []any{map[string]any{"x": 1}, map[string]any{"x": -1}, map[string]any{}, c04Missing}
-	dss := []any{[]any{map[string]any{"x": 1}, map[string]any{"x": 2}}, []any{map[string]any{"x": 0}}, c04Missing}
+	// typed slices and maps (what a Go caller builds without going through JSON) besides []any / map[string]any
+	arrs := []any{[]any{3, 1, 2}, []any{5}, []any{}, c04Missing, 7, []int{4, 6, 8}, []float64{2.5}} // a string is indexable (bytes): left out
+	dvals := []any{map[string]any{"x": 1}, map[string]any{"x": -1}, map[string]any{}, c04Missing, map[string]int{"x": 3}}
+	dss := []any{[]any{map[string]any{"x": 1}, map[string]any{"x": 2}}, []any{map[string]any{"x": 0}}, c04Missing, []map[string]any{{"x": 9}, {"x": 2}}}
 	mats := []any{[]any{[]any{1, 2}, []any{3, 4}}, c04Missing}
 	ms := []any{map[string]any{"n": map[string]any{"o": 7}}, map[string]any{"n": map[string]any{}}, c04Missing}
 	var rows []Row
